@@ -116,6 +116,9 @@ func MerkleTreeLeafFromChain(chain []*x509.Certificate, etype LogEntryType, time
 			Timestamp: timestamp,
 		},
 	}
+	if len(chain) == 0 {
+		return nil, fmt.Errorf("no certificate available for leaf building")
+	}
 	if etype == X509LogEntryType {
 		leaf.TimestampedEntry.X509Entry = &ASN1Cert{Data: chain[0].Raw}
 		return &leaf, nil
